@@ -357,6 +357,9 @@ func runC18(c *wk.Ctx) {
 		runDHCPHistory(c, d)
 	}
 	// ---------------------------------------------------------------- damage part
+	if c.Only >= 0 && c.Only < 900_000_000 {
+		return // replay of one restart history
+	}
 	nHist := c.N(5, 60)
 	var snaps []leaseSnap
 	for hno := int64(0); hno < nHist; hno++ {
